@@ -3,6 +3,7 @@
 package scheduler
 
 import (
+	"net"
 	"sync"
 	"time"
 
@@ -243,4 +244,27 @@ func (h *VerifHarness) Conns() *connstate.State { return h.loop.st.conns }
 // goroutines and dial the peers' addresses.
 func (h *VerifHarness) ApplyAnnounceResult(ih core.InfoHash, peers []*core.PeerInfo) {
 	announceResultEvent{ih, peers}.apply(h.loop.st)
+}
+
+// Accept handles a net conn exactly as the listen loop handles an accepted one:
+// it reads the remote handshake and sends an incomingHandshakeEvent (which blocks
+// until the harness applies it). Run it on its own goroutine.
+func (h *VerifHarness) Accept(nc net.Conn) {
+	pc, err := h.sched.handshaker.Accept(nc)
+	if err != nil {
+		nc.Close()
+		return
+	}
+	h.sched.eventLoop.send(incomingHandshakeEvent{pc})
+}
+
+// LocalRequest reports whether the torrent's control was created by a local
+// Download (false: by an incoming connection, or unknown). Must not be called
+// concurrently with Apply / Tick.
+func (h *VerifHarness) LocalRequest(ih core.InfoHash) (known, local bool) {
+	ctrl, ok := h.loop.st.torrentControls[ih]
+	if !ok {
+		return false, false
+	}
+	return true, ctrl.localRequest
 }
